@@ -235,9 +235,14 @@ class ParseContext(ParserEngine):
     @contextmanager
     def if_(self) -> Any:
         self.states.push()
+        depth = len(self.states.state_stack)
         try:
             yield
         finally:
+            # note: as in rule_call(): a FailedSemantics leaves the states
+            #   of the scopes it passed through behind; a lookahead must
+            #   undo down to its own state, not pop the innermost leftover
+            del self.states.state_stack[depth:]
             self.states.undo()
 
     _if = if_
